@@ -103,6 +103,12 @@ pub fn alphabet(f: &F) -> Vec<(&'static str, String)> {
         // whitespace other than the format's own space around a valid sentence
         ("newline-wrapped-sentence", format!("\nb1{}\n", s.punctuation_judgement)),
         ("tab-led-term", "\ta".to_string()),
+        // leniently accepted number lists: a lone dot / a malformed number before the closing
+        // bracket is dropped (empty truth / budget), which leaves any scratch space non-empty
+        ("truth-lone-dot", format!("a{} {}.{}", s.punctuation_judgement, s.truth_brackets.0, s.truth_brackets.1)),
+        ("truth-malformed-number", format!("a{} {}1.2.3{}", s.punctuation_judgement, s.truth_brackets.0, s.truth_brackets.1)),
+        ("budget-lone-dot", format!("{}.{} a{}", t.budget_brackets.0, t.budget_brackets.1, s.punctuation_judgement)),
+        ("truth-integer", format!("a{} {}1{}", s.punctuation_judgement, s.truth_brackets.0, s.truth_brackets.1)),
         ("empty", String::new()),
         ("space", " ".to_string()),
         ("garbage", c.brackets.1.to_string()),
@@ -153,6 +159,32 @@ pub fn step_all(f: &F, inputs: &[&str]) -> (Vec<Result<CV, ()>>, String) {
 }
 
 pub const STATE_CAP: usize = 20_000;
+
+/// repetition counts of the soak sweep (see `run`)
+pub const SOAK_COUNTS: [usize; 7] = [1, 2, 3, 5, 10, 50, 300];
+
+/// further inputs used as the repeated element of the soak sweep only: bracket towers 64 deep
+/// (unterminated, terminated, over-closed) of every bracket kind, and a long garbage run
+pub fn soak_extras(f: &F) -> Vec<String> {
+    let c = &f.e.compound;
+    let st = &f.e.statement;
+    let mut v = vec![];
+    let towers: Vec<(String, String)> = vec![
+        (c.brackets_set_extension.0.to_string(), c.brackets_set_extension.1.to_string()),
+        (c.brackets_set_intension.0.to_string(), c.brackets_set_intension.1.to_string()),
+        (format!("{}{}{}", c.brackets.0, c.connecter_conjunction, c.separator), c.brackets.1.to_string()),
+        (format!("{}a{}", st.brackets.0, st.copula_inheritance), st.brackets.1.to_string()),
+    ];
+    for (open, close) in towers {
+        v.push(format!("{}a", open.repeat(64)));
+        v.push(format!("{}a{}", open.repeat(64), close.repeat(64)));
+        v.push(format!("{}a{}", open.repeat(8), close.repeat(11)));
+        v.push(format!("{}a{}", open.repeat(64), close.repeat(32)));
+    }
+    v.push(c.brackets.1.repeat(100));
+    v.push(format!("{}0.5", f.e.task.budget_brackets.0).repeat(40));
+    v
+}
 
 #[derive(Clone, Debug)]
 pub struct S {
@@ -256,6 +288,21 @@ pub fn replay_case(c: &J) -> Result<(), String> {
     let inputs: Vec<String> = c["inputs"].as_array().map(|a| a.iter().map(|s| s.as_str().unwrap_or("").to_string()).collect()).unwrap_or_default();
     let refs: Vec<&str> = inputs.iter().map(|s| s.as_str()).collect();
     match c["op"].as_str() {
+        Some("soak") => {
+            let (x, y) = (c["x"].as_str().unwrap_or(""), c["y"].as_str().unwrap_or(""));
+            let k = c["k"].as_u64().unwrap_or(1) as usize;
+            let mut inputs: Vec<&str> = vec![];
+            if c["pattern"].as_u64() == Some(0) {
+                inputs.extend(std::iter::repeat(x).take(k));
+                inputs.push(y);
+            } else {
+                for _ in 0..k {
+                    inputs.push(x);
+                    inputs.push(y);
+                }
+            }
+            check_sequence(&f, &inputs)
+        }
         Some("lexical_sequence") => check_lexical_sequence(&f, &refs),
         _ => check_sequence(&f, &refs),
     }
@@ -288,12 +335,12 @@ pub fn check_lexical_sequence(f: &F, inputs: &[&str]) -> Result<(), String> {
 
 pub fn run(run: &Run) {
     run.rule(
-        "per format an alphabet of 31 inputs (complete task/sentence/term, budget-/truth-/stamp-/\
+        "per format an alphabet of 35 inputs (complete task/sentence/term, budget-/truth-/stamp-/\
          punctuation-only fragments, term without punctuation, out-of-range truth/budget after a \
          filled term, unterminated brackets, empty, garbage); stateright BFS over the residue of \
          the real reused parser to a fixpoint, every transition compared with a fresh parse; every \
          explored history replayed through the public parse_multi; hook-free sweep of ALL input \
-         sequences of length <= 2 (4 thorough, over a 38-input alphabet) through parse_multi; parse_chars vs parse; repeated \
+         sequences of length <= 2 (4 thorough, over a 38-input alphabet) through parse_multi; soak sweep (x^k y and (x y)^k for k up to 300 over the alphabet plus 64-deep towers); parse_chars vs parse; repeated \
          parse; lexical parse / parse_term sequences on the shared static formats; distinct = \
          distinct residues reached + distinct sequences swept",
     );
@@ -402,6 +449,58 @@ pub fn run(run: &Run) {
             }
         });
         run.add_distinct(total as u64 + counts[0].0 as u64);
+        // soak: long histories in one dimension. For every input x of the alphabet plus deep
+        // unterminated / over-closed towers and a long garbage run, every input y, and every
+        // k in SOAK_COUNTS: x repeated k times then y, and (x y) repeated k times, through the
+        // public parse_multi; every position must agree with the fresh parse of that input.
+        // (Breadth-first search merges states that look alike, so it cannot see a leak that only
+        // adds up over hundreds of inputs.)
+        {
+            let mut soak: Vec<String> = alpha.iter().map(|(_, s)| s.clone()).collect();
+            soak.extend(soak_extras(&f));
+            let fresh_of = |s: &str| outcome(&ops::parse_enum(&f, s));
+            let soak_fresh: Vec<_> = soak.iter().map(|s| fresh_of(s)).collect();
+            run.bound("soak_repetitions", json!(SOAK_COUNTS));
+            run.bound(&format!("soak_inputs_{}", f.name), json!(soak.len()));
+            let pairs: Vec<(usize, usize)> = (0..soak.len()).flat_map(|i| (0..alpha.len()).map(move |j| (i, j))).collect();
+            pairs.par_iter().for_each(|&(i, j)| {
+                let (x, y) = (soak[i].as_str(), alpha[j].1.as_str());
+                for &k in SOAK_COUNTS.iter() {
+                    for pattern in 0..2 {
+                        let mut inputs: Vec<&str> = vec![];
+                        let mut want = vec![];
+                        if pattern == 0 {
+                            inputs.extend(std::iter::repeat(x).take(k));
+                            want.extend(std::iter::repeat(&soak_fresh[i]).take(k));
+                            inputs.push(y);
+                            want.push(&fresh[j]);
+                        } else {
+                            for _ in 0..k {
+                                inputs.push(x);
+                                want.push(&soak_fresh[i]);
+                                inputs.push(y);
+                                want.push(&fresh[j]);
+                            }
+                        }
+                        run.eval(1);
+                        let res = quiet_catch(AssertUnwindSafe(|| f.e.parse_multi(inputs.iter().copied()).into_iter().map(|r| outcome(&r.map_err(|e| e.to_string()))).collect::<Vec<_>>()));
+                        let what = if pattern == 0 { format!("{x:?} x {k}, then {y:?}") } else { format!("({x:?}, {y:?}) x {k}") };
+                        let case = json!({"op": "soak", "format": f.name, "x": x, "y": y, "k": k, "pattern": pattern});
+                        match res {
+                            Err(p) => run.violation(&format!("[{}] parse_multi over {what} panics: {p}", f.name), case, &[]),
+                            Ok(got) => {
+                                if got.len() != want.len() {
+                                    run.violation(&format!("[{}] parse_multi over {what} returns {} results for {} inputs", f.name, got.len(), want.len()), case, &[]);
+                                } else if let Some(pos) = (0..got.len()).find(|&p| &got[p] != want[p]) {
+                                    run.violation(&format!("[{}] parse_multi over {what}: position {pos} ({:?}) gives {} but parsed alone it gives {}", f.name, inputs[pos], show_outcome(&got[pos]), show_outcome(want[pos])), case, &[]);
+                                }
+                            }
+                        }
+                    }
+                }
+            });
+            run.add_distinct((pairs.len() * SOAK_COUNTS.len() * 2) as u64);
+        }
         // the three public routes agree on every string the formatter prints for a value universe:
         // parse(s), parse_chars(s.chars()), parse_multi([s])[0], parse_multi([s, s])[1]
         let mut vals: Vec<V> = crate::universe::u_term(&f, Tier::Quick).into_iter().map(V::term).collect();
